@@ -679,6 +679,34 @@ def configuration_twins(chk, F, rng):
                 raise
             chk.violation("twin:row-labels", "fill_cij raises %s: %s for a frame with %s" % (type(e).__name__, str(e)[:120], tag), dict(table=fr.to_dict("list")))
             break
+    # (1c) many volume rows: the residual test is per volume row, whichever row carries the contradiction (also beyond the 21st)
+    nrow = 25
+    many = {"V": [200.0 - i for i in range(nrow)]}
+    for k in ("c11", "c22", "c33"):
+        many[k] = [300.0 + i for i in range(nrow)]
+    for k in ("c12", "c13", "c23"):
+        many[k] = [100.0 + 0.5 * i for i in range(nrow)]
+    for k in ("c44", "c55", "c66"):
+        many[k] = [80.0 + 0.25 * i for i in range(nrow)]
+    for bad_row in (3, 22, 24):
+        t = {k: list(v) for k, v in many.items()}
+        t["c22"][bad_row] += 5.0
+        try:
+            with warnings.catch_warnings():
+                warnings.simplefilter("ignore")
+                F.fill_cij(pandas.DataFrame(t), system)
+            chk.violation("twin:many-rows", "a %d-row cubic table whose row %d has c22 = c11 + 5 GPa (every other row consistent) is accepted: the contradiction in that "
+                          "volume row is not compared with residual_atol" % (nrow, bad_row), dict(rows=nrow, bad_row=bad_row))
+            break
+        except Warning:
+            pass
+        except BaseException as e:
+            if isinstance(e, (KeyboardInterrupt, SystemExit)):
+                raise
+            chk.violation("twin:many-rows", "fill_cij raises %s: %s on a %d-row table" % (type(e).__name__, str(e)[:100], nrow), dict(rows=nrow))
+            break
+    else:
+        chk.side_check("twin %d volume rows: a contradiction in row 3, 22 or 24 alone is refused" % nrow, True)
     # (2) a directory named like the system in the working directory
     cwd = os.getcwd()
     tmp = tempfile.mkdtemp(prefix="c09twin_")
